@@ -128,12 +128,56 @@ def _int_consts(fs):
     return list(out.values())
 
 
+def _lambdas(t, out, seen):
+    k = t.get_id()
+    if k in seen:
+        return
+    seen.add(k)
+    if z3.is_quantifier(t):
+        if t.is_lambda():
+            out[k] = t
+            return
+        _lambdas(t.body(), out, seen)
+        return
+    for c in t.children():
+        _lambdas(c, out, seen)
+
+
+def delambda(pc, goal):
+    """equivalent formulas in which every closed one-argument lambda term is named by an array constant with a defining axiom
+    (forall j. A[j] == body(j)); z3's model finder copes with that form where it gives up on the lambda itself"""
+    lams, seen = {}, set()
+    for f in pc + [goal]:
+        _lambdas(f, lams, seen)
+    if not lams:
+        return pc, goal
+    subs, defs = [], []
+    for n_, (k, lam) in enumerate(lams.items()):
+        if lam.num_vars() != 1:
+            return pc, goal
+        A = z3.Const(f"lam_arr_{n_}", lam.sort())
+        j = z3.Const(f"lam_j_{n_}", lam.var_sort(0))
+        try:
+            body = z3.substitute_vars(lam.body(), j)
+        except z3.Z3Exception:
+            return pc, goal
+        subs.append((lam, A))
+        defs.append(z3.ForAll([j], A[j] == body))
+    try:
+        pc2 = [z3.substitute(f, *subs) for f in pc]
+        g2 = z3.substitute(goal, *subs)
+    except z3.Z3Exception:
+        return pc, goal
+    return pc2 + defs, g2
+
+
 def small_model_search(pc, goal, timeout_ms=3000, bound=3):
     """a counter-model of the obligation restricted to small sizes is a counter-model of the obligation: when the quantified
     hypotheses make z3 give up, bounding every integer unknown to 0..bound often lets model-based instantiation finish"""
     ints = _int_consts(list(pc) + [goal])
     if not ints:
         return None
+    pc, goal = delambda(list(pc), goal)
     s = z3.Solver()
     s.set("timeout", timeout_ms)
     s.add(*pc)
